@@ -7,7 +7,7 @@
    the client gives to each request it may make, and returns the list of requests actually
    made (in order) together with the Go result.  Keccak-256 is an argument [kec]. *)
 From Coq Require Import String List NArith ZArith Bool.
-From MevVerif Require Import lib.Bytes lib.Abi gen.Generated.
+From MevVerif Require Import lib.Bytes lib.Abi.
 Import ListNotations.
 Open Scope N_scope.
 
@@ -38,17 +38,20 @@ Record registry := {
   r_min : bytes; r_min_unpack : bytes;         (* GetMinStake / GetMinAllowance : Pack, Unpack *)
   r_stake : bytes; r_stake_unpack : bytes }.   (* GetStake / GetAllowance : Pack, Unpack *)
 
-Definition the_one (l : list bytes) : bytes := match l with [a] => a | _ => [] end.
-
+(* The names as they are written in the two packages.  They are literal here so that the model
+   and the checker keep running whatever happens to the source; proofs/Registry_proofs.v proves
+   ([provider_registry_extracted], [bidder_registry_extracted]) that they are the arguments of
+   Pack / Unpack the extractor finds in /repo (gen/Generated.v), so that a change of a name or
+   of the place it is used breaks a proof obligation of C11. *)
 Definition provider_registry : registry :=
-  {| r_register := the_one c11_prov_register_pack;
-     r_min := the_one c11_prov_min_pack; r_min_unpack := the_one c11_prov_min_unpack;
-     r_stake := the_one c11_prov_stake_pack; r_stake_unpack := the_one c11_prov_stake_unpack |}.
+  {| r_register := bos "registerAndStake";
+     r_min := bos "minStake"; r_min_unpack := bos "minStake";
+     r_stake := bos "checkStake"; r_stake_unpack := bos "checkStake" |}.
 
 Definition bidder_registry : registry :=
-  {| r_register := the_one c11_bid_register_pack;
-     r_min := the_one c11_bid_min_pack; r_min_unpack := the_one c11_bid_min_unpack;
-     r_stake := the_one c11_bid_stake_pack; r_stake_unpack := the_one c11_bid_stake_unpack |}.
+  {| r_register := bos "prepay";
+     r_min := bos "minAllowance"; r_min_unpack := bos "minAllowance";
+     r_stake := bos "getAllowance"; r_stake_unpack := bos "getAllowance" |}.
 
 (* types.ReceiptStatusSuccessful (go-ethereum core/types) *)
 Definition receipt_status_successful : N := 1.
